@@ -182,6 +182,12 @@ fn test(c: &Case, st: &mut Stats) -> TestResult {
             ),
         ));
     }
+    // reading back by position / through the iterator adaptors shows the same attributes
+    {
+        let raws: Vec<stun_types::attribute::RawAttribute> = msg.iter_attributes().take(built.len() / 4 + 2).collect();
+        crate::props::c02::iterator_protocol(&msg, &raws, built.len() / 4 + 2)
+            .map_err(|m| Fail::new("c03-attrs", format!("built message read back: {}", m)))?;
+    }
     // typed values
     for a in spec.attrs.iter() {
         if let AttrSpec::Typed { kind, fields } = a {
